@@ -51,6 +51,7 @@ type RunConfig struct {
 	Samples         int
 	CrossCheck      bool
 	WallLimitS      int
+	KnownKeys       []string // violation keys (regular expressions) of recorded known findings: never a reason to stop early
 	Merge           bool
 	DumpUnknown     string
 }
@@ -390,7 +391,7 @@ func runHarness(cfg *RunConfig) (*RunResult, error) {
 						}
 						// thousands of paths failing the same assertion: the verdict will
 						// not change, stop exploring (the run is marked incomplete)
-						if r.Count >= 5000 && r.HasVec && (len(queue) > 0 || active > 0) {
+						if r.Count >= 5000 && r.HasVec && (len(queue) > 0 || active > 0) && !matchesAny(cfg.KnownKeys, key) {
 							incon[fmt.Sprintf("exploration stopped after %d paths violating the same assertion", r.Count)] = true
 							stop = true
 						}
@@ -596,4 +597,13 @@ func cmdSelftest() {
 		os.Exit(1)
 	}
 	fmt.Println("selftest ok")
+}
+
+func matchesAny(res []string, key string) bool {
+	for _, r := range res {
+		if ok, _ := regexp.MatchString("^(?:"+r+")$", key); ok {
+			return true
+		}
+	}
+	return false
 }
